@@ -35,6 +35,7 @@ CONSTANTS
   ForeignOps = {}
   MaxRefs = 1
   MaxHeld = 0
+  PoolSize = 16
   Setup = ""
 INIT Init
 NEXT Next
